@@ -36,6 +36,16 @@ def expected_duplicates(name, atoms):
     return [v for v in vals.values() if len(v) > 1]
 
 
+def group_element_duplicates(atoms):
+    """group elements that occur more than once inside ONE message (never on purpose: every commitment, scalar commitment and
+    shown signature half of a message has its own fresh randomness)"""
+    vals = {}
+    for i, kind, a in atoms:
+        if kind in ("g1", "g2"):
+            vals.setdefault(a, []).append(i)
+    return [v for v in vals.values() if len(v) > 1]
+
+
 def secrets_of(stage, hexs):
     if stage == "requested":
         p = parse_requested(hexs)
@@ -80,6 +90,8 @@ class View:
         n_dup_groups = len(dups)
         exp = {"EstablishProof": 4, "PayProof": 5}.get(name, 0)
         run.check_monitor("in_message_duplicates_are_only_the_linked_responses", n_dup_groups == exp, dict(case, duplicate_groups=dups))
+        gd = group_element_duplicates(atoms)
+        run.check_monitor("no_group_element_twice_in_one_message", not gd, dict(case, duplicate_groups=gd[:5]))
         if keep:
             for i, kind, a in atoms:
                 self.seen.setdefault(a, label)
@@ -101,6 +113,13 @@ def run(run, h):
     for ci in range(nch):
         cid = rng.randbytes(32)
         cb, mb = rng.randrange(100, 2 ** 40), rng.randrange(100, 2 ** 40)
+        # channel 0 is funded by the customer only and starts with a zero-amount payment (the merchant's new balance is 0);
+        # channel 1 starts with the customer spending everything (the customer's new balance is 0), then gets a refund
+        plan = []
+        if ci == 0:
+            mb, plan = 0, [0, 5]
+        elif ci == 1:
+            cb, plan = rng.randrange(100, 10 ** 6), None
         ctx = b"est%d" % ci
         e = establish_request(h, M, cid, cb, mb, ctx, [rand_nz(rng) for _ in range(12)], seed=rng.randrange(2 ** 31))
         view.customer_msg("establish proof ch%d" % ci, "EstablishProof", e["proof_hex"], secrets_of("requested", e["req_hex"]))
@@ -115,14 +134,14 @@ def run(run, h):
         token = h.call("m_activate", M.handle, mi["vbs"])[0]
         view.merchant_msg("pay token ch%d" % ci, "Sig", token)
         ready = h.call("inactive_activate", inactive, token, M.cconfig)[1]
-        chans.append({"ci": ci, "ready": ready, "n": 0})
+        chans.append({"ci": ci, "ready": ready, "n": 0, "plan": plan if plan is not None else [cb, -3]})
     npay = (3 if run.tier == "quick" else 6) * nch
     for pi in range(npay):
         ch = rng.choice(chans)
         ci = ch["ci"]
         label = "ch%d pay%d" % (ci, ch["n"])
         terminal_close(run, h, rng, view, M, "ready", ch["ready"], label + " ready")
-        amt = rng.choice([1, 2, -1, 0, 7])
+        amt = ch["plan"].pop(0) if ch["plan"] else rng.choice([1, 2, -1, 0, 7])
         ctx = b"pay"
         h.rng(rng.randrange(2 ** 31))
         t = h.call("ready_start", ch["ready"], amt, hx(ctx), M.cconfig)
